@@ -180,12 +180,13 @@ def _tn_cases(draw, tier):
                         unclamped="maybe", affine_range="maybe", normalize="maybe"))
     pdim = len(d["degree"])
     prm = draw(st.lists(gen.params(pdim), min_size=1, max_size=4))
-    if pdim == 2 and not d.get("unclamped") and draw(st.integers(0, 5)) == 0:
+    if pdim == 2 and not d.get("unclamped") and draw(st.integers(0, 2)) == 0:
         # a pole: the first row of control points (u = domain start) collapsed into one point, so S_v vanishes along that edge
         nv_ = d["size"][1]
         d["P"] = [list(d["P"][0]) if i < nv_ else q for i, q in enumerate(d["P"])]
         d["pole"] = True
         prm = [[["start"], prm[0][1]]] + prm[:2]
+        return {"defn": d, "params": prm, "normalize": True, "as_list": draw(st.booleans())}
     return {"defn": d, "params": prm, "normalize": draw(st.booleans()), "as_list": draw(st.booleans())}
 
 
@@ -268,7 +269,10 @@ def check_tangent_normal(case, ctx):
                         ln_ = math.sqrt(sum(float(x) ** 2 for x in vec_))
                         ctx.check(abs(ln_ - 1.0) <= 1e-9, nm_ + "-not-unit",
                                   "operations.%s(%r, normalize=True) at a point where a partial derivative vanishes returned a vector of length %r: %r" % (nm_, us, ln_, vec_))
-            raise Skip("degenerate tangent or normal")
+            keep_ = [i for i, (D, M) in enumerate(exact) if not degenerate(D)]
+            plist, exact = [plist[i] for i in keep_], [exact[i] for i in keep_]
+            if not plist:
+                raise Skip("degenerate tangent or normal")
         if case["as_list"]:
             tres = operations.tangent(obj, [tuple(us) for us in plist], normalize=nrm)
             nres = operations.normal(obj, [tuple(us) for us in plist], normalize=nrm)
